@@ -96,6 +96,8 @@ func vhC19UseAll(label string, db *DB, uuid string) {
 		vhC19UseMore(label, db, uuid)
 		return
 	}
+	vNoHang(true)
+	defer vNoHang(false)
 	panicked := vCatch(func() {
 		db.Schema(&vObj{})
 		db.GetByUUID(&vObj{}, uuid)
@@ -124,6 +126,8 @@ func vhC19UseAll(label string, db *DB, uuid string) {
 
 // vhC19UseMore: the enumerating, batch and bulk-deleting entry points.
 func vhC19UseMore(label string, db *DB, uuid string) {
+	vNoHang(true)
+	defer vNoHang(false)
 	panicked := vCatch(func() {
 		g := &vObj{}
 		g.Initialize(uuid)
